@@ -1,3 +1,4 @@
+// g++ -std=c++17 -O1 -I. demo.cpp -o demo
 // Stand-alone reproducer (package alloc2, C10): preconditioner::cpr on a matrix one of whose block rows stores no
 // entry inside its diagonal block.  first_scalar_pass() calls invert(v, &fpp->val[ik]) only when the diagonal block is
 // met (cur_col == ip), so fpp->val[ik..ik+B) keeps whatever the heap held; Fpp is then used by apply().
